@@ -478,7 +478,11 @@ class NDNApp:
         :type name: :any:`NonStrictName`
         """
         name = Name.normalize(name)
-        del self._prefix_tree[name]
+        try:
+            del self._prefix_tree[name]
+        except KeyError:
+            # Registered without a callback (func=None), or the callback was already removed
+            pass
         async with self._prefix_register_semaphore:
             try:
                 _, _, reply = await self.express_interest(
